@@ -50,7 +50,7 @@ def swap(ctx):
     runs = ctx.pick(2, 10)
     for k in range(runs):
         r = ctx.gotest("route", FILES, "^TestVerifC02Swap$", race=True, timeout=600,
-                       env={"GOMAXPROCS": [16, 4, 2][k % 3], "VERIF_WRITES": 40, "VERIF_READS": 30})
+                       env={"GOMAXPROCS": [16, 4, 2][k % 3], "VERIF_WRITES": ctx.pick(20, 40), "VERIF_READS": ctx.pick(20, 30), "VERIF_BUILDS": ctx.pick(20, 40)})
         if "WARNING: DATA RACE" in r.out:
             ctx.violation({"sub": "swap", "race": True}, "data race between table installation and lookups:\n" + r.out[:3000],
                           replay={"sub": "swap-race", "case": None})
@@ -80,7 +80,7 @@ def swap(ctx):
             v2 = validate(ctx, bad)
             if v2 is not None and v2.ok:
                 ctx.inconclusive("binding self-test (swap): a trace with a mixed answer was accepted")
-    ctx.log("swap: %d recorded runs (8 readers x 30 lookups x 5 probes, 41 installs, 3 builders x 40 concurrent table builds, -race) accepted by TableSwap_Trace" % runs)
+    ctx.log("swap: %d recorded runs (8 readers x %d lookups x 5 probes, %d installs, 3 builders x %d concurrent table builds, -race) accepted by TableSwap_Trace" % (runs, ctx.pick(20, 30), ctx.pick(21, 41), ctx.pick(20, 40)))
     return True
 
 
